@@ -208,6 +208,8 @@ enum Expect {
     Never,
     /// must always resolve
     Always,
+    /// resolves iff one of the owning features is enabled *and* the facade's `std` feature is on
+    ExactStd,
 }
 
 struct Probe {
@@ -285,6 +287,46 @@ fn probes() -> Vec<Probe> {
     for (name, owners) in helpers {
         v.push(Probe { what: format!("{name} (helper type)"), src: format!("use derive_more::{name} as _;"), owners: owners.to_vec(), expect: Expect::Exact });
     }
+    // The helper types are error values: under every configuration that has them they print (`Display`, `Debug`), and with
+    // `std` they are `std::error::Error`s (the `#[cfg(feature = "std")] impl std::error::Error for ..` of the pinned
+    // src/{add,ops,str,convert,try_unwrap}.rs) — "each derive then behaves as it does under `full`" includes that the
+    // error of a derived `from_str` / `try_from` / `try_into` / `try_unwrap_*` / checked operator converts into a
+    // `Box<dyn Error>` with `?` when std is on, whatever other features are enabled.
+    let helper_tys: &[(&str, &str, &[&'static str])] = &[
+        ("BinaryError", "derive_more::BinaryError", &["add", "mul"]),
+        ("WrongVariantError", "derive_more::WrongVariantError", &["add", "mul"]),
+        ("UnitError", "derive_more::UnitError", &["add", "mul", "not"]),
+        ("FromStrError", "derive_more::FromStrError", &["from_str"]),
+        ("TryFromReprError", "derive_more::TryFromReprError<u8>", &["try_from"]),
+        ("TryIntoError", "derive_more::TryIntoError<u8>", &["try_into"]),
+        ("TryUnwrapError", "derive_more::TryUnwrapError<u8>", &["try_unwrap"]),
+    ];
+    for (name, ty, owners) in helper_tys {
+        let k = fresh();
+        v.push(Probe {
+            what: format!("{name}: Display + Debug (helper type prints)"),
+            src: format!("fn _h{k}() {{ fn p<T: core::fmt::Display + core::fmt::Debug>() {{}} p::<{ty}>(); }}"),
+            owners: owners.to_vec(),
+            expect: Expect::Exact,
+        });
+        let k = fresh();
+        v.push(Probe {
+            what: format!("{name}: std::error::Error (with the `std` feature)"),
+            src: format!("fn _h{k}() {{ fn e<T: std::error::Error>() {{}} e::<{ty}>(); }}"),
+            owners: owners.to_vec(),
+            expect: Expect::ExactStd,
+        });
+    }
+    // The *macro* namespace of `with_trait::X`: `use .. as _` above resolves as soon as the std trait is there, so a lost or
+    // mis-gated `pub use derive_more_impl::X` in `with_trait` (the std glob imports also bring std's own `Debug` derive)
+    // would go unnoticed. Each line derives through the `with_trait` path on an item only derive_more's macro accepts
+    // (helper attribute) or whose expansion is checked by the trait bound that follows.
+    for d in DERIVES {
+        let k = fresh();
+        let path = format!("derive_more::with_trait::{}", d.name);
+        let line = with_trait_derive_line(d.name, &path, k);
+        v.push(Probe { what: format!("with_trait::{} used in #[derive(..)]", d.name), src: line, owners: vec![d.feature], expect: Expect::Exact });
+    }
     let private: &[(&str, &'static str)] =
         &[("Conv", "as_ref"), ("ExtractRef", "as_ref"), ("debug_tuple", "debug"), ("DebugTuple", "debug"), ("AsDynError", "error")];
     for (name, owner) in private {
@@ -298,11 +340,55 @@ fn probes() -> Vec<Probe> {
     v
 }
 
+/// One line deriving `path` (= `derive_more::with_trait::<name>`) on a minimal item of type `P<k>` the derive supports, plus
+/// whatever hand-written impls the expansion needs and a use of the generated impl.
+fn with_trait_derive_line(name: &str, path: &str, k: usize) -> String {
+    let p = format!("P{k}");
+    let fmt_attr = |a: &str, tr: &str| format!("#[derive({path})] #[{a}(\"x\")] struct {p}; fn _u{k}() {{ fn t<T: core::fmt::{tr}>() {{}} t::<{p}>(); }}");
+    match name {
+        "Add" | "Sub" | "BitAnd" | "BitOr" | "BitXor" | "Mul" | "Div" | "Rem" | "Shr" | "Shl" | "Not" | "Neg" => {
+            let args = if matches!(name, "Not" | "Neg") { "" } else if matches!(name, "Mul" | "Div" | "Rem" | "Shr" | "Shl") { "<i32>" } else { "" };
+            format!("#[derive({path})] struct {p}(i32); fn _u{k}() {{ fn t<T: core::ops::{name}{args}>() {{}} t::<{p}>(); }}")
+        }
+        "AddAssign" | "SubAssign" | "BitAndAssign" | "BitOrAssign" | "BitXorAssign" => format!("#[derive({path})] struct {p}(i32); fn _u{k}() {{ fn t<T: core::ops::{name}>() {{}} t::<{p}>(); }}"),
+        "MulAssign" | "DivAssign" | "RemAssign" | "ShrAssign" | "ShlAssign" => format!("#[derive({path})] struct {p}(i32); fn _u{k}() {{ fn t<T: core::ops::{name}<i32>>() {{}} t::<{p}>(); }}"),
+        "AsRef" | "AsMut" => format!("#[derive({path})] struct {p}(i32); fn _u{k}() {{ fn t<T: core::convert::{name}<i32>>() {{}} t::<{p}>(); }}"),
+        "Constructor" => format!("#[derive({path})] struct {p}(i32); fn _u{k}() {{ let _ = {p}::new(1); }}"),
+        "Debug" => fmt_attr("debug", "Debug"),
+        "Display" => fmt_attr("display", "Display"),
+        "Binary" => fmt_attr("binary", "Binary"),
+        "Octal" => fmt_attr("octal", "Octal"),
+        "LowerHex" => fmt_attr("lower_hex", "LowerHex"),
+        "UpperHex" => fmt_attr("upper_hex", "UpperHex"),
+        "LowerExp" => fmt_attr("lower_exp", "LowerExp"),
+        "UpperExp" => fmt_attr("upper_exp", "UpperExp"),
+        "Pointer" => fmt_attr("pointer", "Pointer"),
+        "Deref" => format!("#[derive({path})] struct {p}(i32); fn _u{k}() {{ fn t<T: core::ops::Deref<Target = i32>>() {{}} t::<{p}>(); }}"),
+        "DerefMut" => format!("#[derive({path})] struct {p}(i32); impl core::ops::Deref for {p} {{ type Target = i32; fn deref(&self) -> &i32 {{ &self.0 }} }} fn _u{k}() {{ fn t<T: core::ops::DerefMut>() {{}} t::<{p}>(); }}"),
+        "Error" => format!("#[derive(Debug, {path})] struct {p}; impl core::fmt::Display for {p} {{ fn fmt(&self, f: &mut core::fmt::Formatter<'_>) -> core::fmt::Result {{ f.write_str(\"p\") }} }} fn _u{k}() {{ fn t<T: core::error::Error>() {{}} t::<{p}>(); }}"),
+        "From" => format!("#[derive({path})] struct {p}(i32); fn _u{k}() {{ let _: {p} = 1i32.into(); }}"),
+        "FromStr" => format!("#[derive({path})] struct {p}(i32); fn _u{k}() {{ fn t<T: core::str::FromStr>() {{}} t::<{p}>(); }}"),
+        "Index" => format!("#[derive({path})] struct {p}([i32; 2]); fn _u{k}(x: &{p}) -> i32 {{ x[0] }}"),
+        "IndexMut" => format!("#[derive({path})] struct {p}([i32; 2]); impl<I> core::ops::Index<I> for {p} where [i32; 2]: core::ops::Index<I> {{ type Output = <[i32; 2] as core::ops::Index<I>>::Output; fn index(&self, i: I) -> &Self::Output {{ &self.0[i] }} }} fn _u{k}(x: &mut {p}) {{ x[0usize] = 1; }}"),
+        "Into" => format!("#[derive({path})] struct {p}(i32); fn _u{k}(x: {p}) -> i32 {{ x.into() }}"),
+        "IntoIterator" => format!("#[derive({path})] struct {p}([i32; 2]); fn _u{k}(x: {p}) -> usize {{ x.into_iter().count() }}"),
+        "IsVariant" => format!("#[derive({path})] enum {p} {{ A(i32), B }} fn _u{k}(x: &{p}) -> bool {{ x.is_a() }}"),
+        "Unwrap" => format!("#[derive({path})] enum {p} {{ A(i32), B }} fn _u{k}(x: {p}) -> i32 {{ x.unwrap_a() }}"),
+        "TryUnwrap" => format!("#[derive({path})] enum {p} {{ A(i32), B }} fn _u{k}(x: {p}) -> bool {{ x.try_unwrap_a().is_ok() }}"),
+        "Sum" => format!("#[derive({path})] struct {p}(i32); impl core::ops::Add for {p} {{ type Output = {p}; fn add(self, o: {p}) -> {p} {{ {p}(self.0 + o.0) }} }} fn _u{k}() {{ fn t<T: core::iter::Sum>() {{}} t::<{p}>(); }}"),
+        "Product" => format!("#[derive({path})] struct {p}(i32); impl core::ops::Mul for {p} {{ type Output = {p}; fn mul(self, o: {p}) -> {p} {{ {p}(self.0 * o.0) }} }} fn _u{k}() {{ fn t<T: core::iter::Product>() {{}} t::<{p}>(); }}"),
+        "TryFrom" => format!("#[derive({path})] #[try_from(repr)] #[repr(u8)] enum {p} {{ A, B }} fn _u{k}() -> bool {{ {p}::try_from(1u8).is_ok() }}"),
+        "TryInto" => format!("#[derive({path})] enum {p} {{ A(i32), B(u8) }} fn _u{k}(x: {p}) -> bool {{ i32::try_from(x).is_ok() }}"),
+        other => format!("#[derive({path})] struct {p}(i32); // {other}"),
+    }
+}
+
 /// `Some(true)` must resolve, `Some(false)` must not, `None` nothing asserted.
-fn expected_resolves(p: &Probe, enabled: &BTreeSet<String>) -> Option<bool> {
+fn expected_resolves(p: &Probe, enabled: &BTreeSet<String>, std: bool) -> Option<bool> {
     let owned = p.owners.iter().any(|o| enabled.contains(*o));
     match p.expect {
         Expect::Exact => Some(owned),
+        Expect::ExactStd => Some(owned && std),
         Expect::PresentOnly => owned.then_some(true),
         Expect::Never => Some(false),
         Expect::Always => Some(true),
@@ -310,6 +396,12 @@ fn expected_resolves(p: &Probe, enabled: &BTreeSet<String>) -> Option<bool> {
 }
 
 const PROBE_HEADER_LINES: usize = 2;
+
+/// evidence counters of the probe classes added for the macro namespace of `with_trait` and the trait impls of the helper
+/// types: (derive-through-with_trait lines that compiled, helper `Display + Debug` lines, helper `std::error::Error` lines)
+static CLASS_WITH_TRAIT_DERIVE: AtomicUsize = AtomicUsize::new(0);
+static CLASS_HELPER_PRINTS: AtomicUsize = AtomicUsize::new(0);
+static CLASS_HELPER_STD_ERROR: AtomicUsize = AtomicUsize::new(0);
 
 fn probe_source(probes: &[Probe], dropped: &BTreeSet<usize>) -> String {
     let mut s = String::from("// generated by the C20 check: one exported item per line\n#![allow(unused_imports, dead_code)]\n");
@@ -939,10 +1031,19 @@ fn probe_exports(ctx: &Ctx, sl: &Slot, set: &FeatSet, enabled: &BTreeSet<String>
     let mut leaked = vec![];
     for (i, p) in probes.iter().enumerate() {
         let resolves = !unresolved.contains_key(&i);
-        match expected_resolves(p, enabled) {
+        match expected_resolves(p, enabled, set.std) {
             None => {}
             Some(e) => {
                 asserted += 1;
+                if e && resolves {
+                    if p.what.ends_with("used in #[derive(..)]") {
+                        CLASS_WITH_TRAIT_DERIVE.fetch_add(1, Ordering::Relaxed);
+                    } else if p.what.ends_with("(helper type prints)") {
+                        CLASS_HELPER_PRINTS.fetch_add(1, Ordering::Relaxed);
+                    } else if p.expect == Expect::ExactStd {
+                        CLASS_HELPER_STD_ERROR.fetch_add(1, Ordering::Relaxed);
+                    }
+                }
                 if e && !resolves {
                     missing.push((p.what.clone(), unresolved[&i].clone()));
                 } else if !e && resolves {
@@ -1094,6 +1195,10 @@ fn plan_thorough(ctx: &Ctx, tree: &Tree) -> (Vec<FeatSet>, usize) {
     for f in feats {
         sets.push(FeatSet::new(vec![f.clone()], false));
         sets.push(FeatSet::new(vec![f.clone()], true));
+    }
+    // the one conjunction gate of the facade (`cfg_attr(all(add, display, from, into), doc = include_str!(README))`)
+    for std in [false, true] {
+        sets.push(FeatSet::new(["add", "display", "from", "into"].iter().map(|s| s.to_string()).collect(), std));
     }
     let mandatory = sets.len();
     let mut cfgs = vec![];
@@ -1270,6 +1375,16 @@ pub fn run(ctx: &Ctx) -> Report {
         rep.violations.extend(violations_of(&m, &mres, (m != set).then_some(&set)));
     }
 
+    let ev = &mut rep.evidence;
+    let (c1, c2, c3) = (CLASS_WITH_TRAIT_DERIVE.load(Ordering::Relaxed) as u64, CLASS_HELPER_PRINTS.load(Ordering::Relaxed) as u64, CLASS_HELPER_STD_ERROR.load(Ordering::Relaxed) as u64);
+    ev.label_n("class:derive-through-with_trait-path-compiles", c1);
+    ev.label_n("class:helper-type-prints", c2);
+    ev.label_n("class:helper-type-is-std-error", c3);
+    // floors: every set with an enabled derive feature contributes at least one with_trait derive line; a run without any
+    // helper-type line would not have looked at the helper impls at all
+    if !sets.is_empty() && (c1 < ran_keys.len() as u64 || c2 == 0 || (c3 == 0 && ran_keys.iter().any(|k| k.ends_with("+std")))) {
+        rep.infra_errors.push(format!("probe distribution: with_trait derive lines {c1}, helper Display+Debug lines {c2}, helper std::error::Error lines {c3} over {} sets", ran_keys.len()));
+    }
     let ev = &mut rep.evidence;
     let total_pairs = nfeat * (nfeat - 1);
     ev.set("sets_run", json!(ran_keys));
